@@ -81,6 +81,8 @@ func Open(dir string, opts Options) (result Log, err error) {
 	case opts.Readonly && len(segments) == 0:
 		ix := newReaderIndex(nil, params.Keys, 0, true)
 		rdr := reopenReader(segment.New(dir, 0, opts.AutoSync), params, opts.Version.NewSegmentsVersion, ix)
+		// there are no files to load this index from again: it must survive GC, like the one of a writing segment
+		rdr.head = true
 		l.readers = []*reader{rdr}
 	case opts.Readonly:
 		if opts.Check || opts.Recover {
